@@ -82,7 +82,7 @@ pub fn run(args: &Args) -> Report {
         json_vectors(&mut rep);
         return rep;
     }
-    let total = args.n(6000, 200_000);
+    let total = args.n(6000, 2_000_000);
     let mut rep = run::run_cases(args, 15, total, |idx, rng, rep| {
         let mode = gen::mode(rng);
         let mut h = ref_hasher(&mode);
